@@ -13,19 +13,23 @@
 (*   [ev |-> "log", k |-> "ok"]        "update successful (..)"  = LogOK    *)
 (*   [ev |-> "log", k |-> "fail"]      a compile/read error      = Fail     *)
 (*   [ev |-> "log", k |-> "readdfail"] watcher.Add's bare errno  = ReAddFail*)
-(*   [ev |-> "callback", vers, vis]  the recompilation callback ran;        *)
+(*   [ev |-> "callback", vers, p, g, vis, visp, visg]  the callback ran;     *)
 (*                               vers[f] = what template f of ITS argument  *)
 (*                               renders, vis[f] = what template f renders  *)
 (*                               through the Tofu at that moment (the       *)
 (*                               registry in use)  = Callback /\ wreg = vis *)
+(*                               p/g, visp/visg = the parse-pass tags and   *)
+(*                               the global value those renders show        *)
 (*   [ev |-> "quiesce", r]       the harness found the recompiler parked in *)
 (*                               its select, fsnotify's reader parked in    *)
 (*                               epoll_wait and the inotify queue empty     *)
 (*                               (FIONREAD = 0), twice, with no log line in *)
 (*                               between; r[f] = what template f renders    *)
-(*                               through the Tofu   = Quiet /\ wreg = r     *)
+(*                               through the Tofu, p = the parse-pass tags  *)
+(*                               in that output, g = the global it prints   *)
+(*                               = Quiet /\ wreg = r /\ wregx = [p, g]      *)
 (* The steps nobody can see (WStep: the system calls themselves, Deliver,   *)
-(* DropEvent, ReAddOK, ReadStep, Swap) are chosen by TLC.  A run is         *)
+(* DropEvent, ReAddOK, ReadStep, Compile, Swap) are chosen by TLC.  A run is         *)
 (* accepted iff SOME interleaving of hidden steps makes the recorded        *)
 (* sequence a behaviour of SoyWatch (reference design, per-file reads).     *)
 (*                                                                         *)
@@ -52,10 +56,12 @@ TInit == /\ Init
 
 THidden ==
   /\ tpos >= 1
-  /\ WStep \/ DropEvent \/ Deliver \/ ReAddOK \/ ReadStep \/ Swap
+  /\ WStep \/ DropEvent \/ Deliver \/ ReAddOK \/ ReadStep \/ Compile \/ Swap
   /\ UNCHANGED tvars
 
 AsSnap(s) == [f \in Files |-> s[f]]
+\* passes (a JSON array) and global value observed on a registry
+AsX(ps, gv) == [p |-> {ps[i] : i \in 1..Len(ps)}, g |-> gv]
 
 TVisible ==
   /\ tpos >= 1 /\ tpos <= Len(Traces[tix].ev)
@@ -65,8 +71,10 @@ TVisible ==
          [] e.ev = "log"      -> (CASE e.k = "ok" -> LogOK
                                     [] e.k = "fail" -> Fail
                                     [] e.k = "readdfail" -> ReAddFail)
-         [] e.ev = "callback" -> Callback /\ rsnap = AsSnap(e.vers) /\ wreg = AsSnap(e.vis)
-         [] e.ev = "quiesce"  -> Quiet /\ wreg = AsSnap(e.r) /\ UNCHANGED vars
+         [] e.ev = "callback" -> /\ Callback
+                                 /\ rsnap = AsSnap(e.vers) /\ rsnapx = AsX(e.p, e.g)
+                                 /\ wreg = AsSnap(e.vis) /\ wregx = AsX(e.visp, e.visg)
+         [] e.ev = "quiesce"  -> Quiet /\ wreg = AsSnap(e.r) /\ wregx = AsX(e.p, e.g) /\ UNCHANGED vars
   /\ tpos' = tpos + 1 /\ tix' = tix
   /\ Diag => PrintT(<<"AT", tix, tpos>>)
 
@@ -77,8 +85,8 @@ TAccept ==
   /\ tpos' = 0 /\ tix' = tix
   /\ wdisk' = InitDisk /\ wwatch' = [f \in Files |-> TRUE] /\ wq' = <<>>
   /\ wwr' = IdleW /\ wleft' = MaxWrites
-  /\ rpc' = "idle" /\ rev' = NoEv /\ rnext' = 0 /\ rsnap' = NoSnap
-  /\ wreg' = InitDisk /\ wcb' = NoCb /\ wlost' = FALSE /\ wsnaps' = {} /\ whist' = <<>>
+  /\ rpc' = "idle" /\ rev' = NoEv /\ rnext' = 0 /\ rsnap' = NoSnap /\ rsnapx' = NoX
+  /\ wreg' = InitDisk /\ wregx' = FullX /\ wcb' = NoCb /\ wlost' = FALSE /\ wsnaps' = {} /\ whist' = <<>>
 
 TNext == THidden \/ TVisible \/ TAccept
 =============================================================================
